@@ -233,7 +233,7 @@ func runC05(h *History, stt *stats) result {
 		lt := e.lastResponseType()
 		stt.Cuts[e.label+"-last-response:"+lt]++
 		e.mu.Lock()
-		if e.st != nil && e.st.edsDue {
+		if e.st != nil && e.st.dead && e.st.edsDue && lt == "CDS" {
 			stt.Cuts["between-CDS-and-EDS"]++
 		}
 		e.mu.Unlock()
